@@ -219,7 +219,8 @@ def install_encoder_bracket():
             fname = kwargs.get('filename')
             if fname is None and len(args) >= 3:
                 fname = args[2]
-            call = [fname, False]
+            call = [os.path.abspath(fname) if isinstance(fname, str)
+                    else fname, False]
             ctl['calls'].append(call)
             proxy = FaultyStream(outstr, _enc['plan'], ctl)
             r = orig(klass, game, proxy, *args, **kwargs)
@@ -251,7 +252,8 @@ def install_encoder_bracket():
         ctl = _enc['ctl']
         if ctl is None:
             return orig_to_file(game, filename, *args, **kwargs)
-        call = [filename, False]
+        call = [os.path.abspath(filename) if isinstance(filename, str)
+                else filename, False]
         ctl['writes_api'].append(call)
         r = orig_to_file(game, filename, *args, **kwargs)
         call[1] = True
@@ -332,14 +334,16 @@ class World:
         os.makedirs(self.p(rel), exist_ok=True)
 
     def snap(self, rel):
-        """(exists, is_file, bytes) of a path."""
+        """(exists, is_file, bytes[, link target]) of a path; for a symbolic
+        link the link itself is part of the state."""
         path = self.p(rel)
         if not os.path.lexists(path):
             return (False, False, None)
+        link = os.readlink(path) if os.path.islink(path) else None
         if not os.path.isfile(path):
-            return (True, False, None)
+            return (True, False, None) + ((link,) if link else ())
         with io.open(path, 'rb') as fh:
-            return (True, True, fh.read())
+            return (True, True, fh.read()) + ((link,) if link else ())
 
     def listing(self):
         out = []
